@@ -1,5 +1,6 @@
 """C08: command execution always terminates, leaving no threads/timers/fds/zombies."""
 import io
+import itertools
 import os
 import subprocess
 import sys
@@ -7,6 +8,7 @@ import threading
 import time
 
 from .. import core
+from .. import coqterm as ct
 from .. import runner_cases as cases
 from .. import runner_common as rc
 from ..core import Prop
@@ -22,7 +24,10 @@ class C08(Prop):
             "stderr, process exit (any status), exit immediately followed by KeyboardInterrupt, timer expiry, "
             "worker death (unexpected exception / WatcherError) in any of the three workers, "
             "KeyboardInterrupt in wait(); x pty x stdin worker x async x timeout x pipes held open by a "
-            "descendant x start failure.  Non-trivial = the script contains a process end, a worker death or an "
+            "descendant x start failure x poll granularity (case key 'glue': consecutive events that fall "
+            "between the same two iterations of the wait loop -- worker death and process end in one poll "
+            "interval, in both orders, with reads/EOFs/timer expiry around them; the thread executing run() is "
+            "held in the loop's time.sleep while such a burst happens).  Non-trivial = the script contains a process end, a worker death or an "
             "interrupt; distinct by the whole case")
     trusted_base = [
         "Coq 8.16.1 kernel + vm_compute (shard evaluation, refutation witnesses)",
@@ -70,30 +75,36 @@ class C08(Prop):
         if self.phases:
             self.phases.mark("scripted cases + shards")
         if tier == "quick":
-            # a slice of the exhaustive small scope (all of it: thorough tier) + generated cases; the ones
+            # the core of the same-poll-interval family (all of it: thorough tier, enumerate_small) ...
+            yield from burst_slice(rng, 160)
+            # ... a slice of the exhaustive small scope (all of it: thorough tier) + generated cases; the ones
             # that cost real seconds (1 s per expiring join) are capped
-            yield from cases.quick_cases(rng, n, focus=None)
+            for c in cases.quick_cases(rng, n, focus=None):
+                yield with_glue(c, rng)
             return
         for _ in range(n):
-            yield cases.gen_case(rng)
+            yield with_glue(cases.gen_case(rng), rng)
 
     def enumerate_small(self, tier):
-        return cases.small_cases(tier)
+        yield from cases.small_cases(tier)
+        yield from burst_small_cases(tier)
 
     def run_impl(self, case):
         return cases.run_impl(case)
 
     def to_coq(self, case, obs):
-        return cases.to_coq(case, obs)
+        return "(mkb %s %s)" % (cases.to_coq(case, obs), ct.lst([ct.n(k) for k in burst_sizes(case)]))
 
     def nontrivial(self, case, obs):
         return cases.process_ends(case) or cases.has_exc(case) or cases.has_kbd(case)
 
     def classify(self, case, obs):
-        return cases.classify(case, obs)
+        return ("burst " if obs.get("bursts") else "") + cases.classify(case, obs)
 
     def finding_of(self, case, obs):
-        d = cases.death_while_running(case)
+        # F-C08d: the wait loop was left because of the dead worker in an iteration BEFORE the one in which
+        # the process has ended (same poll interval: the poll comes first and reaps)
+        d = death_an_iteration_before_end(case)
         if case["pty"] and obs["outcome"] == "ChildProcessError" and \
                 any(e[0] == "exit_kbd" for e in case["events"]):
             return "F-C08b"
@@ -107,11 +118,31 @@ class C08(Prop):
     def shrink_candidates(self, case):
         if not self._budget.ok():
             return
-        yield from cases.shrink_candidates(case)
+        glue = sorted(case.get("glue") or [])
+        if not glue:
+            yield from cases.shrink_candidates(case)
+            return
+        evs = case["events"]
+        groups = burst_groups(case)
+        for g in groups:
+            for i in g:                                     # drop one event, keep the grouping of the others
+                gs = [[j for j in h if j != i] for h in groups]
+                yield regroup(case, evs, [h for h in gs if h])
+        yield dict(case, glue=[])
+        for k in glue:
+            yield dict(case, glue=[j for j in glue if j != k])
+        for c in cases.shrink_candidates(dict(case, glue=[])):
+            if len(c["events"]) == len(evs):
+                yield dict(c, glue=list(glue))
 
     def mutate(self, case, rng):
-        for _ in range(40):
-            yield cases.gen_case(rng)
+        # the same script at other poll granularities, the burst family, then fresh cases
+        for _ in range(12):
+            yield with_glue(dict(case, glue=[]), rng, p_case=1.0, p_pair=rng.choice([0.3, 0.6, 1.0]))
+        for c in burst_slice(rng, 12):
+            yield c
+        for _ in range(30):
+            yield with_glue(cases.gen_case(rng), rng)
 
     # ------------------------------------------------------------------ extra
     def extra_checks(self, tier, seed):
@@ -124,6 +155,137 @@ class C08(Prop):
             self.phases.mark("end")
             res.append(self.phases.entry())
         return res
+
+
+# ---------------------------------------------------------------------------
+# poll granularity: which consecutive events fall between the same two iterations of the wait loop
+# (case["glue"] = indices i with "event i+1 happens in the same poll interval as event i")
+# ---------------------------------------------------------------------------
+GLUABLE = ("out", "err", "exc", "werr", "exc_base", "exit", "timer")      # = rc.Env.BURST_KINDS
+
+
+def burst_groups(case):
+    """the script's indices, cut into bursts"""
+    glue = set(case.get("glue") or [])
+    groups = []
+    for i in range(len(case["events"])):
+        if i > 0 and (i - 1) in glue:
+            groups[-1].append(i)
+        else:
+            groups.append([i])
+    return groups
+
+
+def burst_sizes(case):
+    if not case.get("glue"):
+        return []
+    return [len(g) for g in burst_groups(case)]
+
+
+def regroup(case, evs, groups):
+    """case with the events of `groups` (lists of indices into evs), glued accordingly"""
+    new, glue = [], []
+    for g in groups:
+        for k, i in enumerate(g):
+            if k > 0:
+                glue.append(len(new) - 1)
+            new.append(evs[i])
+    c = dict(case, events=new, glue=glue)
+    if not cases.process_ends(c):
+        c["never_eof"] = [w for w in ("out", "err") if w in cases.workers(c)]
+    return c
+
+
+def with_glue(case, rng, p_case=0.4, p_pair=0.45):
+    """some of the adjacent event pairs (of kinds that can fall into a sleep of the wait loop) happen
+    within the same poll interval"""
+    if rng.random() >= p_case:
+        return case
+    evs = case["events"]
+    glue = [i for i in range(len(evs) - 1)
+            if evs[i][0] in GLUABLE and evs[i + 1][0] in GLUABLE and rng.random() < p_pair]
+    return dict(case, glue=glue) if glue else case
+
+
+def death_an_iteration_before_end(case):
+    """(worker, kind) of the first death of an existing worker in a burst strictly before the burst in
+    which the process ends"""
+    done = set()
+    for g in burst_groups(case):
+        evs = [case["events"][i] for i in g]
+        if any(cases.is_end(case, e) for e in evs):
+            return None
+        for e in evs:
+            if e[0] in ("out", "err") and not e[1]:
+                done.add(e[0])
+            if e[0] in ("exc", "werr", "exc_base") and e[1] in cases.workers(case) and e[1] not in done:
+                return (e[1], e[0])
+    return None
+
+
+def burst_small_cases(tier):
+    """worker death and process end within ONE poll interval of the wait loop: both orders, every worker,
+    both kinds of death, with a read / an EOF / the timer expiry in the same burst or around it,
+    x pty x stdin worker; plus bursts without a death (EOFs + exit, timer + exit) and two deaths"""
+    kinds = ("exc", "werr") if tier == "quick" else ("exc", "werr", "exc_base")
+    codes = (0, 1) if tier == "quick" else (0, 1, -15)
+    base = {"warn": False, "async": False, "start_error": None, "never_eof": []}
+    for pty in (False, True):
+        for has_in in (False, True):
+            whos = ["out"] + (["in"] if has_in else []) + ([] if pty else ["err"])
+            ins = {"mode": "text"} if has_in else None
+            for who in whos:
+                for kind in kinds:
+                    d = [kind, who]
+                    for code in codes:
+                        x = ["exit", code]
+                        for pair in ([d, x], [x, d]):
+                            # the burst alone, after a read, before the EOFs
+                            for pre, post in (([], []), ([["out", [65]]], []), ([], [["out", []], ["err", []]]),
+                                              ([["out", [65]]], [["err", []]])):
+                                evs = pre + pair + post
+                                yield dict(base, events=evs, pty=pty, glue=[len(pre)], **{"in": ins})
+                            # a third event inside the same burst, at every position
+                            for extra in (["out", [65]], ["out", []], ["err", []], ["timer"]):
+                                for pos in range(3):
+                                    evs = pair[:pos] + [extra] + pair[pos:]
+                                    c = dict(base, events=evs, pty=pty, glue=[0, 1], **{"in": ins})
+                                    if extra[0] == "timer":
+                                        c["timeout"] = 5
+                                    yield c
+                    # death + timer kill in one interval
+                    for pair in ([d, ["timer"]], [["timer"], d]):
+                        yield dict(base, events=pair + [["out", []]], pty=pty, glue=[0], timeout=5, **{"in": ins})
+                    # the death in a burst with a read, the end an iteration later (the F-C08d order)
+                    yield dict(base, events=[["out", [65]], d, ["exit", 0]], pty=pty, glue=[0], **{"in": ins})
+            # two workers die and the process ends, one interval
+            for a, b in itertools.permutations(whos, 2):
+                for perm in itertools.permutations([["exc", a], ["werr", b], ["exit", 1]]):
+                    yield dict(base, events=[list(e) for e in perm], pty=pty, glue=[0, 1], **{"in": ins})
+            # no death: everything else that can share an interval with the end
+            for perm in itertools.permutations([["exit", 3], ["out", []], ["err", []]]):
+                for warn in (False, True):
+                    yield dict(base, events=[["out", [65]]] + [list(e) for e in perm], pty=pty, warn=warn,
+                               glue=[1, 2], **{"in": ins})
+            for perm in itertools.permutations([["exit", 0], ["timer"]]):
+                yield dict(base, events=[list(e) for e in perm] + [["out", []]], pty=pty, glue=[0], timeout=5,
+                           **{"in": ins})
+            # a held pipe next to it (1 s join timeout)
+            yield dict(base, events=[["werr", "out"], ["exit", 0]], pty=pty, glue=[0],
+                       never_eof=[] if pty else ["err"], **{"in": ins})
+
+
+def burst_slice(rng, k):
+    """quick tier: the two-event core (death + end in one interval, alone) in full, the rest sampled"""
+    allc = [dict(c, events=[list(e) for e in c["events"]]) for c in burst_small_cases("quick")]
+    is_core = lambda c: len(c["events"]) == 2 and not c.get("never_eof")     # noqa
+    core = [c for c in allc if is_core(c)]
+    rest = [c for c in allc if not is_core(c) and not cases.may_expire(c)]
+    slow = [c for c in allc if not is_core(c) and cases.may_expire(c)]
+    rng.shuffle(rest)
+    rng.shuffle(slow)
+    out = core + slow[:1] + rest
+    return out[:max(k, len(core) + 1)]
 
 
 # ---------------------------------------------------------------------------
